@@ -311,7 +311,8 @@ func drySQL(tx *gorm.DB) string {
 var condHandle *gorm.DB
 
 func mkCond(db *gorm.DB) *gorm.DB {
-	return db.Or("rank = ?", -7).Where("body <> ?", "nobody").Where("rank >= ?", 0).Session(&gorm.Session{})
+	// (a pagination base: model, conditions and an order; Count is called on it directly)
+	return db.Model(&fam.Note{}).Or("rank = ?", -7).Where("body <> ?", "nobody").Where("rank >= ?", 0).Order("id").Session(&gorm.Session{})
 }
 
 // runOp executes one operation of task t and renders what the caller observes.
@@ -503,7 +504,7 @@ func runOp(db *gorm.DB, t int, op Op) string {
 			tx = h.Table("notes").Order("id").Limit(1+op.X%4).Pluck("id", &ids)
 		default:
 			var n int64
-			tx = h.Model(&fam.Note{}).Count(&n)
+			tx = h.Count(&n)
 		}
 		return out(tx, drySQL(tx))
 	case "note":
